@@ -187,7 +187,7 @@ def check_case(sub, case):
     if spec["fmt"]["format"] == "fixed":
         text = gen_tables.fixed_text(rows, spec["fmt"])
     else:
-        text = gen_tables.delimited_text(rows)
+        text = gen_tables.delimited_text(rows, fmt=spec["fmt"])
     expected = judge(sub, case, spec, rows, rows, lambda mode: io.StringIO(text, newline=""), "<io>",
                      spec["fmt"]["kind"])
     outcomes = [o for o in expected["outcomes"] if o is not None]
